@@ -279,3 +279,31 @@ class VInPlaceIncrement(FloatOperation):
         CALL_LOG.append(("VInPlaceIncrement", data.data))
         data._data = data.data + 1.0
         return data
+
+
+from semantiva.context_processors.context_processors import ContextProcessor  # noqa: E402
+
+
+class VCtxBump(ContextProcessor):
+    """Context processor with a bindable output key: writes a + 1 under CONTEXT_OUTPUT_KEY
+    (bound per node through `parameters: {context_key: <key>}` -> with_context_key)."""
+
+    CONTEXT_OUTPUT_KEY: str = "w"
+
+    @classmethod
+    def with_context_key(cls, key: str):
+        """Return a subclass with CONTEXT_OUTPUT_KEY bound to ``key``."""
+        safe = key.replace(".", "_")
+        return type(f"{cls.__name__}_OUT_{safe}", (cls,), {
+            "CONTEXT_OUTPUT_KEY": key,
+            "__doc__": (cls.__doc__ or "") + f"\n\nBound output key: '{key}'.",
+            "context_keys": classmethod(lambda kls: [kls.CONTEXT_OUTPUT_KEY]),
+        })
+
+    def _process_logic(self, *, a: float) -> None:
+        CALL_LOG.append(("VCtxBump", a))
+        self._notify_context_update(self.__class__.CONTEXT_OUTPUT_KEY, a + 1.0)
+
+    @classmethod
+    def context_keys(cls):
+        return [cls.CONTEXT_OUTPUT_KEY]
